@@ -209,6 +209,7 @@ def _kill_pool(ex: ProcessPoolExecutor) -> None:
 # --------------------------------------------------------------------------
 def _short(text: str, limit: int = 1200) -> str:
     """The full text is in the replay file; the console gets the two ends."""
+    text = text.encode("utf-8", "backslashreplace").decode("utf-8")  # (lone surrogates are printable this way)
     if len(text) <= limit:
         return text
     return text[: limit // 2] + f" ...[{len(text) - limit} characters]... " + text[-limit // 2 :]
@@ -511,7 +512,7 @@ def run_check(modname: str, tier: str) -> int:
         print(f"KNOWN-FINDING: property={prop} {s} :: {known[s]} (seen {len(by_sig[s])}x this run)", flush=True)
     if os.environ.get("VERIF_LIST_SIGS"):
         for s_ in sorted(by_sig):
-            print(f"SIG {len(by_sig[s_]):6d} {s_} :: {by_sig[s_][0].get('what', '')[:300]}", flush=True)
+            print(f"SIG {len(by_sig[s_]):6d} {s_} :: {_short(by_sig[s_][0].get('what', ''), 300)}", flush=True)
     n_viol = 0
     min_budget = float(os.environ.get("VERIF_MINIMISE_S", plan.get("minimise_s", 45)))
     for s in unknown[:5]:
